@@ -253,11 +253,23 @@ func evalCase(c *Case) (string, string) {
 
 // ---- generation -----------------------------------------------------------------------------------------------
 
+// signers are long-lived: one signer object per (key, kid) for the whole process, reused for every request it signs,
+// as a wallet or node does (state leaking from one signature into the next would show).
+var signerCache = map[string]client.Signer{}
+
 func signerFor(k *keys.Key, kid string) client.Signer {
-	if k.Type == keys.Ed25519 {
-		return edsigner.New(k.Ed25519Private(), k.Type.Alg(), kid)
+	id := k.ID() + "|" + kid
+	if s, ok := signerCache[id]; ok {
+		return s
 	}
-	return ecsigner.New(k.ECDSAPrivate(), k.Type.Alg(), kid)
+	var s client.Signer
+	if k.Type == keys.Ed25519 {
+		s = edsigner.New(k.Ed25519Private(), k.Type.Alg(), kid)
+	} else {
+		s = ecsigner.New(k.ECDSAPrivate(), k.Type.Alg(), kid)
+	}
+	signerCache[id] = s
+	return s
 }
 
 func libJWK(t *rapid.T, k *keys.Key, nonce bool) *jws.JWK {
